@@ -78,6 +78,15 @@ def _make_num(B, fd, name):
     return getattr(xn, name)()
 
 
+def mesh2d(B, fd, nx, ny, lx, ly):
+    """the real 2D mesh, then OTHER mesh objects of other sizes (a grid-refinement study builds several meshes up front): what a
+    mesh holds must not live on the class"""
+    me = fd.mesh2d.mesh2d(nx, ny, lx, ly)
+    fd.mesh2d.mesh2d(nx + 2, ny + 1, B.const(1), B.const(2))
+    fd.mesh.unimesh(ncell=nx + 3, length=B.const(2))
+    return me
+
+
 def make_model(B, fd, cfg):
     model = _make_model(B, fd, cfg)
     # same for the models: the registries of boundary conditions / variables / fluxes are merged at construction time
@@ -202,7 +211,7 @@ def build2d(B, cfg, source=None):
     fd = B.fd
     nx, ny = cfg['nx'], cfg['ny']
     model = fd.euler.euler2d(gamma=B.const(cfg.get('gamma', '2')), **({'source': source} if source is not None else {}))
-    mesh = fd.mesh2d.mesh2d(nx, ny, B.pos('lx', 0.5, 3.0), B.pos('ly', 0.5, 3.0))
+    mesh = mesh2d(B, fd, nx, ny, B.pos('lx', 0.5, 3.0), B.pos('ly', 0.5, 3.0))
     num = fd.xnum.extrapol2d1() if cfg.get('num', 'extrapol2d1') == 'extrapol2d1' else \
         fd.xnum.extrapol2dk(B.var('kappa', -1.0, 1.0) if cfg.get('kappa', 'sym') == 'sym' else B.const(cfg['kappa']))
     bcs = cfg.get('bc2d', {'left': 'per', 'right': 'per', 'top': 'per', 'bottom': 'per'})
